@@ -55,6 +55,9 @@ func runC19(w *World, r *Report) {
 	c19AtomicRMW(w, r, "C19-R8")
 	c19RegisteredBeforeStart(w, r, "C19-R9")
 	c10OneCriticalSection(w, r, "C19-R10")
+	c19TaskListAfterPersist(w, r)
+	c19HandlersReadOnly(w, r)
+	c10KeyVerbatim(w, r, "C19-R13")
 	r.Rule("C19-R6", "task id validated before use as a key segment", "validCreateRequest rejects a task id containing '/' (and the relative segments) with an error", 1)
 
 	hr := w.Func(pkgServer, "CDCServer", "handleRequest")
@@ -783,5 +786,113 @@ func c19RegisteredBeforeStart(w *World, r *Report, id string) {
 			}
 		}
 		r.Check(ok, id, fmt.Sprintf("(*MetaCDC).Create | startInternal#%d after registration", i+1), st.Pos(), "cdcTasks.data[id] is stored on every path to the start", "the task is started before (or without) being registered in cdcTasks.data: when the start fails, delete() answers 'not found', the request is rejected, but the task record and its checkpoints stay in the meta store (list shows the task, a restart resurrects it)")
+	}
+}
+
+// c19TaskListAfterPersist (C19-R11): a rejected create leaves the task list as it was. In Create every write into
+// cdcTasks.data comes after the task record was persisted (the last point at which the request can still be rejected by
+// validation, duplicate check or quota), so no reject path has to undo it.
+func c19TaskListAfterPersist(w *World, r *Report) {
+	r.Rule("C19-R11", "the task list is written only for a persisted task", "in Create every store into cdcTasks.data is dominated by the meta-store Put of the task record (no placeholder is parked there while the request can still be rejected)", 1)
+	cr := w.Func(pkgServer, "MetaCDC", "Create")
+	if cr == nil {
+		r.Undecided("C19-R11", "(*MetaCDC).Create", 0, "anchor not found")
+		return
+	}
+	var puts []*ssa.Call
+	eachInstr(cr, func(in ssa.Instruction) {
+		if c, ok := in.(*ssa.Call); ok && c.Common().IsInvoke() && c.Common().Method.Name() == "Put" {
+			if len(c.Common().Args) >= 2 && strings.Contains(c.Common().Args[1].Type().String(), "TaskInfo") {
+				puts = append(puts, c)
+			}
+		}
+	})
+	n := 0
+	eachInstr(cr, func(in ssa.Instruction) {
+		mu, ok := in.(*ssa.MapUpdate)
+		if !ok || !strings.HasSuffix(strings.TrimSuffix(w.accessPath(mu.Map), "[]"), ".cdcTasks.data") {
+			return
+		}
+		n++
+		ok2 := false
+		for _, p := range puts {
+			if instrDominates(p, mu) {
+				ok2 = true
+			}
+		}
+		r.Check(ok2, "C19-R11", fmt.Sprintf("(*MetaCDC).Create | cdcTasks.data write #%d follows the persisted record", n), mu.Pos(), "dominated by TaskInfo store Put", "the task list is written before the task record is persisted: a request rejected afterwards (duplicate collection, limit, undecodable position) leaves an entry behind — get/list/pause see a task that does not exist, and a repeated create with that id is answered 200")
+	})
+	if n == 0 {
+		r.Undecided("C19-R11", "(*MetaCDC).Create | cdcTasks.data", cr.Pos(), "no write of the task list found in Create")
+	}
+}
+
+// c19HandlersReadOnly (C19-R12): the request handlers registered in handle_map.go pass the decoded request on; they do
+// not write into it. Decoded maps are nil when the key is absent from the body: a write panics in the handler.
+func c19HandlersReadOnly(w *World, r *Report) {
+	r.Rule("C19-R12", "handlers do not write into the decoded request", "the handler literals of server/handle_map.go contain no map update and no field store on the request model they were given", 0)
+	n, bad := 0, 0
+	for _, fn := range w.RepoFuncs() {
+		if fn.Pkg == nil || fn.Pkg.Pkg.Path() != pkgServer || fn.Parent() == nil {
+			continue
+		}
+		if !strings.HasSuffix(w.Prog.Fset.Position(fn.Pos()).Filename, "handle_map.go") {
+			continue
+		}
+		n++
+		eachInstr(fn, func(in ssa.Instruction) {
+			switch x := in.(type) {
+			case *ssa.MapUpdate:
+				bad++
+				r.Fail("C19-R12", fmt.Sprintf("%s | map write #%d", shortFn2(fn), bad), x.Pos(), "a request handler writes into a map of the decoded request: the map is nil when the body does not carry that key, the write panics and the client gets no JSON answer")
+			}
+		})
+	}
+	if bad == 0 {
+		r.OK("C19-R12", "census", 0, fmt.Sprintf("%d handler literals inspected", n))
+	}
+}
+
+// c10KeyVerbatim (C10-R11 / C19-R13): reserve, revert, delete and reload meet in one table entry only when the key a
+// function is handed is the key it uses.
+func c10KeyVerbatim(w *World, r *Report, rule string) {
+	r.Rule(rule, "the per-target key is used as given", "in checkDuplicateCollection every access to collectionNames.{data,excludeData,extraInfos,nameMapping} is keyed by the uKey parameter itself (not by a trimmed / normalised copy that the revert closure, delete and reload do not compute)", 4)
+	cd := w.Func(pkgServer, "MetaCDC", "checkDuplicateCollection")
+	if cd == nil || len(cd.Params) < 2 {
+		r.Undecided(rule, "(*MetaCDC).checkDuplicateCollection", 0, "anchor not found")
+		return
+	}
+	key := cd.Params[1]
+	n := 0
+	for _, g := range familyOf(cd).Funcs {
+		eachInstr(g, func(in ssa.Instruction) {
+			var m, k ssa.Value
+			switch x := in.(type) {
+			case *ssa.Lookup:
+				m, k = x.X, x.Index
+			case *ssa.MapUpdate:
+				m, k = x.Map, x.Key
+			default:
+				return
+			}
+			ap := strings.TrimSuffix(w.accessPath(m), "[]")
+			if !strings.Contains(ap, ".collectionNames.") || strings.Count(ap[strings.Index(ap, ".collectionNames."):], "[") > 0 {
+				return
+			}
+			n++
+			direct := familyOf(cd).canon(k) == ssa.Value(key) || k == ssa.Value(key)
+			if !direct {
+				if u, ok := k.(*ssa.UnOp); ok {
+					if al, isAl := familyOf(cd).canon(u.X).(*ssa.Alloc); isAl {
+						sts := familyOf(cd).stores[al]
+						direct = len(sts) == 1 && sts[0].Val == ssa.Value(key)
+					}
+				}
+			}
+			r.Check(direct, rule, fmt.Sprintf("(*MetaCDC).checkDuplicateCollection | table access #%d keyed by uKey", n), in.Pos(), "the parameter itself", "the table is accessed under a value computed from the key (trimmed, lower-cased, …): the reserve is recorded under one entry while Create's revert, delete and reload use the key as given — a rejected request leaves its names registered, a deleted task's names are never released")
+		})
+	}
+	if n == 0 {
+		r.Undecided(rule, "(*MetaCDC).checkDuplicateCollection | table accesses", cd.Pos(), "none found")
 	}
 }
